@@ -564,9 +564,17 @@ impl CommandTask {
         );
         let child_fut = async { child.wait().await.map_err(MonorailError::from) };
 
+        // Both readers run to the end of their final flush before an error of one of them
+        // (on cancellation: both return one) ends the task. Dropping the other reader in the
+        // middle of a flush leaves lines in the stored log that never reach a log stream
+        // listener, or a torn block on the shared stream.
+        let readers_fut = async {
+            let (stdout_result, stderr_result) = tokio::join!(stdout_fut, stderr_fut);
+            stdout_result.and(stderr_result)
+        };
         // todo; cancellation future
-        let (_stdout_result, _stderr_result, child_result) =
-            tokio::try_join!(stdout_fut, stderr_fut, child_fut).map_err(|e| {
+        let (_readers_result, child_result) =
+            tokio::try_join!(readers_fut, child_fut).map_err(|e| {
                 CommandTaskCancelInfo {
                     id: self.id,
                     elapsed: self.start_time.elapsed(),
